@@ -115,7 +115,9 @@ func (t TypeURLMap) SetFromSchema(schema map[string]*ast.Definition, url string)
 		}
 
 		for _, f := range v.Fields {
-			if common.IsBuiltinName(f.Name) || isNodeField(f) {
+			// the node entry point is a field of Query; a mutation or subscription field of that
+			// shape belongs to the service that declares it like any other root field
+			if common.IsBuiltinName(f.Name) || (common.IsQueryObjectName(k) && isNodeField(f)) {
 				continue
 			}
 
